@@ -246,7 +246,8 @@ func NewSingleHostReverseProxy(target *url.URL, without string, keepalive int, t
 
 	if target.Scheme == "unix" {
 		rp.Transport = &http.Transport{
-			Dial: socketDial(target.String(), timeout),
+			Dial:               socketDial(target.String(), timeout),
+			DisableCompression: true, // see below
 		}
 	} else if target.Scheme == "quic" {
 		rp.Transport = &http3.RoundTripper{
@@ -267,6 +268,7 @@ func NewSingleHostReverseProxy(target *url.URL, without string, keepalive int, t
 			Dial:                  dialFunc,
 			TLSHandshakeTimeout:   defaultCryptoHandshakeTimeout,
 			ExpectContinueTimeout: 1 * time.Second,
+			DisableCompression:    true, // see below
 		}
 		if keepalive == 0 {
 			transport.DisableKeepAlives = true
@@ -283,6 +285,12 @@ func NewSingleHostReverseProxy(target *url.URL, without string, keepalive int, t
 		transport := &http.Transport{
 			Proxy: http.ProxyFromEnvironment,
 			Dial:  rp.dialer.Dial,
+			// A relay forwards what the client asked for. Left to itself the
+			// transport adds "Accept-Encoding: gzip" to a request that has
+			// none and unpacks the answer: the backend sees a header the
+			// client did not send, and the client gets other bytes (and
+			// another Content-Length under the same ETag) than the backend sent.
+			DisableCompression: true,
 		}
 		if httpserver.HTTP2 {
 			if err := http2.ConfigureTransport(transport); err != nil {
@@ -642,6 +650,7 @@ type connHijackerTransport struct {
 func newConnHijackerTransport(base http.RoundTripper) *connHijackerTransport {
 	t := &http.Transport{
 		MaxIdleConnsPerHost: -1,
+		DisableCompression:  true,
 	}
 	if b, _ := base.(*http.Transport); b != nil {
 		tlsClientConfig := b.TLSClientConfig
